@@ -220,9 +220,11 @@ class Evaluator:
             return self.ev(e.body)
         if c is False:
             return self.ev(e.orelse)
+        ct = CondText(_src(e.test))
+        ct.val = self.ev(e.test)
         a = self.ev(e.body)
         b = self.ev(e.orelse)
-        return ("ifexp", _src(e.test), a, b)
+        return ("ifexp", ct, a, b)
 
     def ev_BoolOp(self, e):
         vals = tuple(self.ev(v) for v in e.values)
